@@ -118,6 +118,8 @@ def main_pass(mod, prop, tier, seed):
     acc = core.Acc()
     for r in core.pmap(core.safe_task(mod.run_task, prop, tier, seed), [(i, tasks[i]) for i in sel]):
         acc.merge(r)
+    if hasattr(mod, 'finalize_acc'):
+        mod.finalize_acc(acc)          # judgements over what all tasks (in all worker processes) observed together
     return acc, desc, {'tasks': len(tasks), 'tasks_run': len(sel)}
 
 
